@@ -23,11 +23,11 @@ PROPS = {
     'C01': dict(
         level='model_checking', verus_units=['merge', 'core', 'utils', 'tasks'],
         kani=True,
-        kani_select=dict(quick=r'^k_order_|^k_task_map_fil_col_n|^k_glue_map_fil_col_n2c1|^k_api_par2_(empty|fil|fmap|map_fil)_collect_vec',
-                         thorough=r'^k_order_|^k_task_\w+_col_n|^k_taskkeys_|^k_glue_\w+_col_n|^k_api_par2_\w+_collect(_vec)?_n'),
+        kani_select=dict(quick=r'^k_order_|^k_src_|^k_task_map_fil_col_n|^k_glue_map_fil_col_n2c1|^k_api_par2_(empty|fil|fmap|map_fil)_collect_vec',
+                         thorough=r'^k_order_|^k_src_|^k_task_\w+_col_n|^k_taskkeys_|^k_glue_\w+_col_n|^k_api_par2_\w+_collect(_vec)?_n'),
         trusted_base=[T1, T2, T3, T4, T5, ASPEC, A64, ARITH, RSCHED, STUBS, MODEL],
         assumptions=[TASK_BOUND],
-        explanation='Verus (unbounded, real text): heap_sort_into_vec/_pinned_vec append exactly the key-sorted enumeration of all (key,value) slots after the untouched prefix (every slot read once), for any number and length of worker vectors; Runner::run_map returns one result per worker in spawn order for every has_more() history. Verus (unbounded, real text, RW15): filtermap_fil_col::task returns keys that are strictly increasing and are positions pulled by this worker (T1 assumed at the two pull sites), every value is a filter_map output that has a value and passes the filter; Fallible for Option never panics under has_value(). Kani (bounded): every collect kernel task returns exactly the survivors of the blocks delivered to it keyed by source position in strictly increasing key order (= the merge precondition, asserted by the merge contract stub); kernel glue and public API chains equal the std::iter chain. ' + MC_TEXT,
+        explanation='Verus (unbounded, real text): heap_sort_into_vec/_pinned_vec append exactly the key-sorted enumeration of all (key,value) slots after the untouched prefix (every slot read once), for any number and length of worker vectors; Runner::run_map returns one result per worker in spawn order for every has_more() history. Verus (unbounded, real text, RW15/RW16): filtermap_fil_col::task and flatmap_fil_col::task return keys that are strictly increasing and are positions pulled by this worker (T1 assumed at the two pull sites), every value is a filter_map output that has a value and passes the filter; Fallible for Option never panics under has_value(). Kani (bounded): every collect kernel task returns exactly the survivors of the blocks delivered to it keyed by source position in strictly increasing key order (= the merge precondition, asserted by the merge contract stub); kernel glue and public API chains equal the std::iter chain. ' + MC_TEXT,
     ),
     'C02': dict(
         level='model_checking', verus_units=['utils', 'core'],
@@ -39,13 +39,13 @@ PROPS = {
         explanation='Verus (unbounded): maybe_reduce case table (None neutral, reduce applied once in order on Some/Some); Runner::reduce folds every worker result once in spawn order. Kani (bounded): each find kernel task returns the first survivor of its blocks with its source index; kernel glue with the min-by-index reduce returns the global first match for every block->worker table and every early-exit frontier, None iff nothing matches; find/first/any/all through the public API agree with std. ' + MC_TEXT,
     ),
     'C03': dict(
-        level='model_checking', verus_units=['utils', 'core'],
+        level='model_checking', verus_units=['utils', 'core', 'redtasks'],
         kani=True,
         kani_select=dict(quick=r'^k_task_\w+_red_n(3c1|3c2|1c1|2c1)|^k_glue_map_fil_red_n3c1|^k_api_par2_(map_fil_reduce|fil_fold|map_min_by_key|map_fil_sum)',
                          thorough=r'^k_task_\w+_red_|^k_glue_\w+_red_|^k_api_par2_\w+_(reduce|fold|sum|min|max|min_by|max_by|min_by_key|max_by_key)_n'),
         trusted_base=[T1, T5, T6, A64, ARITH, RSCHED, STUBS, MODEL],
         assumptions=[TASK_BOUND, 'operators checked: wrapping add, xor, min, max on u8 payloads (associative and commutative)'],
-        explanation='Verus (unbounded): maybe_reduce case table; Runner::reduce returns the left fold of all worker results (each exactly once), None only for zero workers. Kani (bounded): each reduce kernel task folds exactly the survivors of its blocks with survivors-1 operator calls; glue and API wrappers (fold, sum, min, max, *_by, *_by_key) agree with the sequential fold; None iff nothing survives. ' + MC_TEXT,
+        explanation='Verus (unbounded): maybe_reduce case table; Runner::reduce returns the left fold of all worker results (each exactly once), None only for zero workers. Verus (unbounded, real text with RW17-RW19): in the three reduce kernel tasks the per-worker accumulator is None exactly when no chunk pulled so far had a survivor (a chunk without survivors never resets it), and the accumulator seed of the hand-unrolled filter_map arm passed the filter. Kani (bounded): each reduce kernel task folds exactly the survivors of its blocks with survivors-1 operator calls; glue and API wrappers (fold, sum, min, max, *_by, *_by_key) agree with the sequential fold; None iff nothing survives. ' + MC_TEXT,
     ),
     'C04': dict(
         level='model_checking', verus_units=['core'],
